@@ -126,7 +126,7 @@ impl Op {
         let hk = |i: usize| hex(&self.keys[i]);
         match self.name {
             "GET" | "STRLEN" | "INCR" | "GETDEL" | "TYPE" | "LPOP" | "RPOP" | "LLEN" | "LRANGE" | "FGET" | "PGET" | "EGET" | "ESGET" | "XSGET"
-            | "EINCR" | "ESINCR" => {
+            | "EINCR" | "ESINCR" | "XINCR" => {
                 format!("{} {}", self.name, hk(0))
             }
             "SET" | "SETNX" | "APPEND" | "GETSET" | "FSET" | "PSET" | "ESET" | "ESSET" | "EVAL0SET" => {
@@ -243,6 +243,9 @@ fn show_keys(ks: &[Vec<u8>]) -> String {
 }
 
 /// a Lua script through EVAL, or through SCRIPT LOAD + EVALSHA
+/// GET, add one in Lua, SET, return the new value (integers only: the counter class)
+pub const XINCR_SCRIPT: &str = "local v = redis.call('GET', KEYS[1]) if not v then v = 0 else v = tonumber(v) end redis.call('SET', KEYS[1], tostring(v + 1)) return v + 1";
+
 pub async fn run_script(st: &State, script: &str, by_sha: bool, keys: Vec<String>, args: Vec<SDS>) -> RespValue {
     if by_sha {
         let sha = match st.execute(&Command::ScriptLoad(script.to_string())).await {
@@ -286,6 +289,9 @@ pub async fn apply(st: &State, op: &Op) -> String {
             let args: Vec<SDS> = op.vals.iter().map(|v| sds(v)).collect();
             r1(&run_script(st, script, op.name.starts_with("ES"), vec![k0()], args).await)
         }
+        // a MULTI-CALL script: read, compute in Lua, write back — an increment iff the whole script is
+        // one atomic step of the key's shard (two redis.call's inside ONE ShardMessage)
+        "XINCR" => r1(&run_script(st, XINCR_SCRIPT, false, vec![k0()], vec![]).await),
         "GETDEL" => r1(&st.execute(&Command::GetDel(k0())).await),
         "GETSET" => r1(&st.execute(&Command::GetSet(k0(), sds(&op.vals[0]))).await),
         "TYPE" => r1(&st.execute(&Command::TypeOf(k0())).await),
